@@ -359,7 +359,7 @@ func c10Little(s *sdb.Schema) *c10View {
 }
 
 func runC10(r *ev.Run) {
-	r.Rule = "grammar-directed enumeration of CREATE TABLE statements (1-3 columns; types {none, INTEGER, integer, INT, TEXT, INTEGER(5)}; every ordered list of <=2 (3 thorough) column constraints from 15; 0-2 table constraints from 20 incl. duplicate/overlapping/re-ordered/collated/DESC ones and CONSTRAINT names; WITHOUT ROWID; 7 identifier spellings incl. the string literal SQLite accepts where a name is expected; identifiers, type names and keywords that differ only in non-ASCII case - SQLite folds ASCII only) and CREATE INDEX statements (UNIQUE, column permutations, per-column COLLATE/DESC, partial, expression columns, one or two indexes) on 5 base tables; the index families and a quarter of the DESC-bearing table definitions once more in a legacy-format database (schema format 3: DESC is ignored); only statements real SQLite accepts are judged; oracle: PRAGMA table_xinfo/index_list/index_xinfo + a behavioural rowid-alias probe + reading the probe row back. A definition sqlittle rejects is fine; an explicit index it leaves out is fine; every index it reports must match SQLite's index of that name; every automatic index must be reported. non-trivial = statements with at least one index or a primary key"
+	r.Rule = "grammar-directed enumeration of CREATE TABLE statements (1-3 columns; types {none, INTEGER, integer, INT, TEXT, INTEGER(5)}; every ordered list of <=2 (3 thorough) column constraints from 15; 0-2 table constraints from 20 incl. duplicate/overlapping/re-ordered/collated/DESC ones and CONSTRAINT names; WITHOUT ROWID; 7 identifier spellings incl. the string literal SQLite accepts where a name is expected; identifiers, type names and keywords that differ only in non-ASCII case - SQLite folds ASCII only) and CREATE INDEX statements (UNIQUE, column permutations, per-column COLLATE/DESC, partial, expression columns, one or two indexes) on 5 base tables; the index families and a quarter of the DESC-bearing table definitions once more in a legacy-format database (schema format 3: DESC is ignored); only statements real SQLite accepts are judged; oracle: PRAGMA table_xinfo/index_list/index_xinfo + a behavioural rowid-alias probe + reading the probe row back, through the table and through every listed index. A definition sqlittle rejects is fine; an explicit index it leaves out is fine; every index it reports must match SQLite's index of that name; every automatic index must be reported. non-trivial = statements with at least one index or a primary key"
 	cases := c10Generate(r.Thorough())
 	r.Set("generated_statements", len(cases))
 	// one SQLite connection per worker, reused (the table is dropped between cases)
@@ -542,6 +542,25 @@ func c10One(r *ev.Run, l *lite.DB, c *c10Case) {
 		r.Trans(1)
 		if gerr != nil || !RowsEq(gotRows, wantRows, true) {
 			r.Violation("C10:probe-row:"+c10AliasClass(stmt)+cls, fmt.Sprintf("%s: the row (70, 71, ..) reads back as %v (err=%v), SQLite %v", stmt, RowsS(gotRows), gerr, RowsS(wantRows)), art)
+		} else {
+			// ... and through every index the schema lists (the key columns SQLite appends - rowid, primary key
+			// columns - decide how the table row is found): partial indexes may leave the probe row out
+			for n, gi := range got.Indexes {
+				wi, ok := want.Indexes[n]
+				if !ok || strings.Join(gi.Cols, ",") != strings.Join(wi.Cols, ",") {
+					continue // reported above
+				}
+				var viaIdx [][]interface{}
+				var ierr error
+				if p := Safely(func() { viaIdx, ierr = IndexedAll(h, "t", n, want.Cols...) }); p != nil {
+					r.Violation("C10:probe-index:panic"+cls, fmt.Sprintf("%s: IndexedSelect through %q panics: %v", stmt, n, p), art)
+					continue
+				}
+				r.Trans(1)
+				if ierr != nil || (len(viaIdx) > 0 && !RowsEq(viaIdx, wantRows, true)) || (len(viaIdx) == 0 && !strings.Contains(strings.ToUpper(stmt), " WHERE ")) {
+					r.Violation("C10:probe-index:"+c10NameClass(n)+cls, fmt.Sprintf("%s: the probe row through index %q: %v (err=%v), SQLite %v", stmt, n, RowsS(viaIdx), ierr, RowsS(wantRows)), art)
+				}
+			}
 		}
 	}
 }
